@@ -500,4 +500,69 @@ theorem yearly_loop_is_yearly (period : Int) (fs : List Fraction) (h : ∀ f ∈
   unfold yearly group
   rw [List.foldl_map]
 
+
+/-! ## `for … : if …: break` -/
+
+/-- `for x in l: if stop(x): break; state = body(state, x)` (`none` = the body raised) -/
+def forBreak {σ α : Type} (stop : α → Bool) (body : σ → α → Option σ) : σ → List α → Option σ
+  | s, [] => some s
+  | s, x :: t => if stop x then some s else (body s x).bind (fun s' => forBreak stop body s' t)
+
+theorem forBreak_eq {σ α : Type} (stop : α → Bool) (body : σ → α → Option σ) : ∀ (l : List α) (s : σ),
+    forBreak stop body s l = (l.takeWhile (fun x => !stop x)).foldlM body s := by
+  intro l
+  induction l with
+  | nil => intro s; rfl
+  | cons x t ih =>
+    intro s
+    by_cases h : stop x = true
+    · simp [forBreak, h, List.takeWhile_cons]
+    · have h' : stop x = false := by simpa using h
+      simp only [forBreak, h', Bool.false_eq_true, if_false, List.takeWhile_cons, Bool.not_false, if_true, List.foldlM_cons]
+      cases hb : body s x with
+      | none => rfl
+      | some s' => simp only [Option.bind_some, Option.bind_eq_bind]; exact ih s'
+
+/-- **the whole replay loop with its `break`, as translated**: over the time-sorted concatenation of the three tables (in the order the source
+concatenates them), stopping at the first transaction the translated `stops` test fires on, running the translated blocks — raises exactly when
+the model's `balances` rejects and otherwise builds the model's rows. -/
+theorem balance_loop_with_break_is_model (allowNeg : Bool) (t : Int) (ins : List InTx) (outs : List OutTx) (intras : List IntraTx)
+    (hsmall : ((balanceOrder (some t) ins outs intras).map mass).sum < 10 ^ 29) :
+    match balances allowNeg (some t) ins outs intras with
+    | .ok bs => ∃ s, forBreak (fun tx : AnyTx => stops tx.ts.day t) (stepAny allowNeg) {}
+          (sortByTs (·.ts.us) (ins.map AnyTx.i ++ intras.map AnyTx.x ++ outs.map AnyTx.o)) = some s ∧ rows s = bs.map rowOf
+    | .error _ => forBreak (fun tx : AnyTx => stops tx.ts.day t) (stepAny allowNeg) {}
+          (sortByTs (·.ts.us) (ins.map AnyTx.i ++ intras.map AnyTx.x ++ outs.map AnyTx.o)) = none := by
+  have h := balance_loop_is_model allowNeg (some t) ins outs intras hsmall
+  have e : (sortByTs (·.ts.us) (ins.map AnyTx.i ++ intras.map AnyTx.x ++ outs.map AnyTx.o)).takeWhile
+      (fun tx : AnyTx => !stops tx.ts.day t) = balanceOrder (some t) ins outs intras := by
+    unfold balanceOrder cutAt
+    simp only
+    congr 1
+    funext tx
+    rw [replay_order_and_cut.2]
+    simp
+  rw [forBreak_eq, e]
+  exact h
+
+
+/-- **the whole loop of `_create_yearly_gain_loss_list` with its `break`, as translated**: over all fractions (in the order of the gain / loss set),
+stopping at the first one the translated test fires on — the model's `yearly` of the fractions cut at the to-date, which is what `compute` reports -/
+theorem yearly_loop_with_break_is_model (period t : Int) (fs : List Fraction) (h : ∀ f ∈ fs, lotlessDisposal f = false) :
+    forBreak (fun f : Fraction => yearlyStops f.ev.ts.day t) (yearlyRound period) [] fs =
+      some (yearly period (cutAt (fun f : Fraction => f.ev.ts.day) (some t) fs)) := by
+  have e : fs.takeWhile (fun f : Fraction => !yearlyStops f.ev.ts.day t) = cutAt (fun f : Fraction => f.ev.ts.day) (some t) fs := by
+    unfold cutAt
+    simp only
+    congr 1
+    funext f
+    rw [yearly_cut]
+    simp
+  rw [forBreak_eq, e]
+  apply yearly_loop_is_yearly
+  intro f hf
+  apply h
+  rw [← e] at hf
+  exact (List.takeWhile_sublist _).subset hf
+
 end Rp2.Tables
